@@ -189,6 +189,20 @@ func epAck(c *RunCtx, cfg ackCfg) *Result {
 		if got := int(s.W.Metrics().Submitted()); got != wantSub {
 			e.Fail("C17", "submitted", "ledger/"+cfg.QK.String(), fmt.Sprintf("%s: Submitted=%d, accepted through this worker %d", cfg, got, wantSub))
 		}
+		// metrics at rest: every finished invocation is counted once (also when its acknowledgement was refused)
+		exits, fails := 0, 0
+		for _, r := range k.Recs {
+			if r.Exit.Load() != 0 {
+				exits++
+				if r.Out.Panic != nil {
+					fails++
+				}
+			}
+		}
+		if m := s.W.Metrics(); int(m.Completed()) != exits || m.Completed() != m.Successful()+m.Failed() || int(m.Failed()) != fails {
+			e.Fail("C17", "completed", "ledger", fmt.Sprintf("%s: Completed=%d Successful=%d Failed=%d, finished invocations=%d of which %d panicked", cfg, m.Completed(), m.Successful(), m.Failed(), exits, fails))
+		}
+		e.ntFor("C17")
 		s.W.Stop()
 		synctest.Wait()
 		// (3) crash cuts: whatever is gone from the adapter was processed completely; a new worker on the
